@@ -258,6 +258,8 @@ _STRS_HEAD = [tlv("80", txt("hi")), tlv("81", txt("ia")), tlv("82", txt("Pr 1"))
 _STRS_TAIL = [tlv("89", "04a0"), tlv("8a", "0081"), tlv("8b", "dead"), tlv("8c", txt("20240115103000Z")), tlv("8d", txt("240115103000Z")),
               tlv("8e", "2a8648"), tlv("8f", "0801"), tlv("90", "800001"), tlv("91")]
 K0_MORE_SEEDS = {
+    # Call ::= SEQUENCE { code, arg <open type> }: DER as before, and OER input (decode-only for open types): code 1 / ArgA 42, code 2 / ArgB "abc"
+    "Call": ["3008800101a10302012a", "300a800102a1051603616263", "300a800103a1053003800109", "oer:0101" "02002a", "oer:0102" "0403616263", "oer:0109" "0100"],
     "Strs": [tlv("30", *(_STRS_HEAD + _STRS_TAIL)), tlv("30", *(_STRS_HEAD + [tlv("87", txt("g")), tlv("88", txt("t"))] + _STRS_TAIL)),
              # invalid: NumericString member longer than SIZE(0..5), VisibleString outside FROM("a".."f")
              tlv("30", *(_STRS_HEAD[:3] + [tlv("83", txt("xyz")), tlv("84", txt("1234567"))] + _STRS_HEAD[5:] + _STRS_TAIL))],
@@ -283,7 +285,9 @@ Z0_SEEDS = {
     "ZField": [tlv("30", "020101", "0a0101", "020107"), tlv("30", "020102", "0a0100", "800109"),
                tlv("30", "020103", "0a0102", tlv("31", "800101", "830105")), tlv("30", "020104", "0a0100", tlv("31", "0101ff", "010100")),
                # invalid: ZI8 value 300 for ID 1
-               tlv("30", "020101", "0a0101", "0202012c")],
+               tlv("30", "020101", "0a0101", "0202012c"),
+               # OER (the library can decode an open type member from OER but not encode one): id 1, crit green, val ZI8 7; then id 2 / ZCh.x 9
+               "oer:0101" "01" "0107", "oer:0102" "00" "03800109", "oer:0105" "00" "0107"],
     "ZFields": ["3000", tlv("30", tlv("30", "020101", "0a0101", "020107"), tlv("30", "020102", "0a0100", "800109"))],
     "ZNumFree": [tlv("12", txt("0123 4")), tlv("12", txt("9"))],
     "ZPrAlpha": [tlv("13", txt("1ab")), tlv("13", txt("0")), tlv("13", txt("zzz"))],
